@@ -371,6 +371,19 @@ theorem add_never_inplace (k : Kind) (hk : k.isStr = true) (r : Nat) :
     · omega
     · split at this <;> omega
 
+/-- `v[d] = v[s] + v[t]` joins two pushed copies: the left block has one more holder, it is never reused -/
+theorem join_on_copy_never_inplace (k : Kind) (hk : k.isStr = true) (r : Nat) :
+    NV.Gen.C06.joinInPlace (k == .mstr) (incRef k r 1) = false := by
+  cases hx : NV.Gen.C06.joinInPlace (k == .mstr) (incRef k r 1) with
+  | false => rfl
+  | true =>
+    have := (joinInPlace_sole _ _ hx).2
+    unfold incRef at this
+    rw [if_pos hk] at this
+    split at this
+    · omega
+    · split at this <;> omega
+
 /-- non-vacuity: the single holder of a run-time string appends in place; with a second holder a copy is made and the
     other holder keeps its text -/
 example : inPlaceTarget (match run St.init [.newmstr 0 "ab"] with | .ok s => s | .error _ => St.init) (.sappend 0 "7")
